@@ -44,11 +44,25 @@ where
     }
 
     pub(super) fn finish(&mut self, header: &sam::Header) -> io::Result<()> {
+        // The output layers added by the builder (buffered writer, BGZF encoder) are finished
+        // here as well. Otherwise, they are only flushed when dropped, where errors are discarded.
         match self {
-            Self::Sam(writer) => writer.finish(header),
-            Self::SamGz(writer) => writer.finish(header),
-            Self::Bam(writer) => writer.finish(header),
-            Self::BamRaw(writer) => writer.finish(header),
+            Self::Sam(writer) => {
+                writer.finish(header)?;
+                writer.get_mut().flush()
+            }
+            Self::SamGz(writer) => {
+                writer.finish(header)?;
+                writer.get_mut().try_finish()
+            }
+            Self::Bam(writer) => {
+                writer.finish(header)?;
+                writer.try_finish()
+            }
+            Self::BamRaw(writer) => {
+                writer.finish(header)?;
+                writer.get_mut().flush()
+            }
             Self::Cram(writer) => writer.finish(header),
         }
     }
